@@ -1,4 +1,5 @@
 import NutilsVerif.Proofs.C18
+import NutilsVerif.Generated.C18
 /-!
 # C18 — disk memoisation is transparent and crash-tolerant: property theorems
 
@@ -118,6 +119,15 @@ call on a fresh cache directory (empty file) escapes with EOFError instead of co
 theorem caught_necessary (c : Cfg V L E) (h : c.pk.load [] = .error .eof) (hc : c.caught .eof = false) (ev : Event E) :
     (call c ev []).2 = .loadCrash .eof := by
   simp [call, lookup, h, hc]
+
+/-- **caught_tuples_cover_truncation** (X: the tuples are regenerated from src/nutils/cache.py on every run).  Both `except`
+clauses that guard `pickle.load` list every exception class that a truncated or empty pickle raises (EOFError "Ran out of
+input", UnpicklingError "pickle data was truncated"), i.e. the `caught` parameter of the theorems can be instantiated with
+the tuple in the source such that H0/H2 are about exactly these two classes. -/
+theorem caught_tuples_cover_truncation :
+    ∀ e ∈ [LoadErr.eof, LoadErr.unpickling],
+      (Gen.caughtFnAll || Gen.caughtFn.contains e) = true ∧ (Gen.caughtRecAll || Gen.caughtRec.contains e) = true := by
+  decide
 
 /-! ## Recursion -/
 
